@@ -244,6 +244,8 @@ def reps_allowed(X, Y, reps):
 
 
 def cl_cases(tier, seed):
+    for X, Y, k in ((10, 10, 0), (10, 10, 1), (11, 10, 2), (10, 12, 3)) + (((12, 12, 4), (11, 11, 5), (10, 11, 6)) if tier == "thorough" else ()):
+        yield {"kind": "large", "X": X, "Y": Y, "k": k}
     for c in game_cases(tier, seed):
         yield dict(c, reps=1)
     for c in game_cases(tier, seed, dists=["uniform", "g0", "zent"]):
@@ -252,9 +254,38 @@ def cl_cases(tier, seed):
                 yield dict(c, reps=reps)
 
 
+def _large_game(X, Y, k):
+    """Integer weights 1..9 and predicate bits from a fixed arithmetic pattern (seed-independent); exact value by enumeration of Alice's +-1
+    assignments (Bob best-responds column by column), in integer arithmetic."""
+    W = np.array([[1 + (7 * x + 3 * y + 5 * k + x * y) % 9 for y in range(Y)] for x in range(X)], dtype=np.int64)
+    F = np.array([[((x * x + 3 * y + k * (x + 2 * y) + (x * y) // 3) % 5) % 2 for y in range(Y)] for x in range(X)], dtype=np.int64)
+    S = W * (1 - 2 * F)
+    best = 0
+    for lo in range(0, 2 ** X, 4096):
+        codes = np.arange(lo, min(lo + 4096, 2 ** X))
+        A = 1 - 2 * ((codes[:, None] >> np.arange(X)[None, :]) & 1)
+        best = max(best, int(np.abs(A @ S).sum(axis=1).max()))
+    tot = int(W.sum())
+    return W / tot, F, 0.5 + best / (2.0 * tot)
+
+
 def cl_check(case):
     from toqito.nonlocal_games.xor_game import XORGame
 
+    if case.get("kind") == "large":
+        # at least ten questions per player: more than 1000 deterministic strategies, so the value comes from the multiprocessing branch
+        # of NonlocalGame.classical_value (added after seeded change C08-10, whose workers all enumerated the first block of strategies)
+        P, F, expected = _large_game(case["X"], case["Y"], case["k"])
+        g, exc = call(XORGame, P, F)
+        if exc is not None:
+            return viol("constructor rejected a valid game: " + exc_text(exc), site="XORGame:constructor")
+        c1, exc = call(g.classical_value)
+        if exc is not None:
+            return viol("classical_value raised: " + exc_text(exc), site="classical_value:exception")
+        if abs(float(c1) - expected) > ALG:
+            return viol(f"classical_value of a {case['X']}x{case['Y']} XOR game is not the maximum over +-1 answer assignments",
+                        site="classical_value:large", observed=float(c1), expected=expected)
+        return ok(True, obs=float(c1))
     X, Y, W, f, S, tot = build(case)
     reps = case["reps"]
     cm, a, b = exact_classical(S, tot)
@@ -754,7 +785,7 @@ CLAUSES = [
            doc="quantum_value inside the certified primal/dual bracket for every (tol, reps, dtype); >= classical; Grothendieck; "
                "reps r = r-th power; object and arguments unchanged"),
     Clause("C08.classical", cl_cases, cl_check, tol="alg(1e-9)", alphabets=_alph_games, probe=4,
-           doc="classical_value = +-1 brute force = general-game brute force of the converted tensor; to_nonlocal_game tensor exact; "
+           doc="classical_value = +-1 brute force = general-game brute force of the converted tensor (incl. 10..12-question games that take the multiprocessing branch); to_nonlocal_game tensor exact; "
                "repeated game = product-game brute force"),
     Clause("C08.closed_forms", cf_cases, cf_check, tol="scs(1e-3)", chunk=2, probe=2, alphabets=_alph_closed,
            doc="CHSH family cos^2(pi/8); odd cycles cos^2(pi/4n), classical 1-1/2n; reps 1,2"),
